@@ -667,8 +667,14 @@ pub fn gen_obj(rng: &mut Prng, w: &World, kind: &str) -> Option<Obj> {
         "parmsid" => Obj::ParmsId(*rng.pick(&w.data_levels())),
         "plain" => Obj::Plain(gen_plain_any(rng, w)),
         "sk" => Obj::Sk(w.sk.clone()),
-        "ct" => Obj::Ct(gen_cipher(rng, w, true, if rng.chance(1, 4) { 16 } else { 5 })),
-        "ctfull" => Obj::CtFull(gen_cipher(rng, w, true, if rng.chance(1, 4) { 16 } else { 5 })),
+        "ct" => {
+            let max = if rng.chance(1, 4) { 16 } else { 5 };
+            Obj::Ct(gen_cipher(rng, w, true, max))
+        }
+        "ctfull" => {
+            let max = if rng.chance(1, 4) { 16 } else { 5 };
+            Obj::CtFull(gen_cipher(rng, w, true, max))
+        }
         "ctterms" => Obj::CtTerms(gen_cipher(rng, w, true, 3), gen_terms(rng, n)),
         "pk" => Obj::Pk(w.keygen.create_public_key(rng.coin())),
         "kswitch" => {
